@@ -227,6 +227,12 @@ func init() {
 		depth, budget := 5, 150
 		if !r.Quick() {
 			depth, budget = 6, 3000
+			alpha = append(alpha, w("dr2")) // a deleted version that still carries a reference
+			raw = nil
+			for _, o := range alpha {
+				b, _ := json.Marshal(o)
+				raw = append(raw, b)
+			}
 		}
 		engine.RunSeq(r, engine.SeqSpec{Name: "c12-seq", WorkerArgs: []string{"worker", "compact"}, Alphabet: raw, Depth: depth, Budget: time.Duration(budget) * time.Second})
 		c12Sched(r)
